@@ -803,6 +803,8 @@ class Sym(Interp):
             return isinstance(t, tuple) and len(t) == 4 and t[0] == "ext" and t[1] in VALUE_CONVERSIONS and len(t[2]) == 1 and t[2][0] == x and not t[3]
         if ta == tb:
             return ta
+        while isinstance(cond, tuple) and len(cond) == 3 and cond[0] == "unop" and cond[1] == "not":
+            cond, ta, tb = cond[2], tb, ta                  # (a if not c else b) is (b if c else a): one spelling, as for the path conditions
         if conv_of(ta, tb):
             return tb
         if conv_of(tb, ta):
@@ -814,6 +816,8 @@ class Sym(Interp):
             return o2
         if o2 is None:
             return o1
+        while isinstance(cond, tuple) and len(cond) == 3 and cond[0] == "unop" and cond[1] == "not":
+            cond, o1, o2 = cond[2], o2, o1
         out = {}
         mu = set(o1.get("$mu", ())) | set(o2.get("$mu", ()))
         for k in set(o1) | set(o2):
